@@ -126,6 +126,26 @@ func mcSection3(c *vlib.Case) {
 		c.Violationf("model3d.MarchingCubesConj/equals-search-of-transformed-solid-mapped-back", w,
 			"MarchingCubesConj differs from MarchingCubesSearch(TransformSolid(...)) mapped through the inverse: %s", why)
 	}
+	// the SmartSqueeze shortcut is MarchingCubesConj through the squeeze's own transform
+	if c.Index%3 == 0 {
+		ax := rng.Intn(3)
+		lo, hi := solid.Min().Array()[ax], solid.Max().Array()[ax]
+		sq := toolbox3d.NewSmartSqueeze(toolbox3d.Axis(ax), []float64{0, 0.1, 0.3, 0.7}[rng.Intn(4)], (hi-lo)*0.02, []float64{0, 0.25, 0.5}[rng.Intn(3)])
+		for k := rng.Intn(3); k > 0; k-- {
+			a := lo + (hi-lo)*rng.Float64()
+			sq.AddUnsqueezable(a, a+(hi-lo)*0.3*rng.Float64())
+		}
+		if rng.Intn(2) == 0 {
+			sq.AddPinch(lo + (hi-lo)*(0.2+0.6*rng.Float64()))
+		}
+		want := model3d.MarchingCubesConj(solid, delta, iters, sq.Transform(solid))
+		got := sq.MarchingCubesSearch(solid, delta, iters)
+		tl.Count("mc3d.smart_squeeze_shortcuts", 1)
+		if ok, why := vlib.EqualCanonTris(vlib.CanonTris(vlib.Tris(want)), vlib.CanonTris(vlib.Tris(got))); !ok {
+			c.Violationf("toolbox3d.SmartSqueeze.MarchingCubesSearch/equals-conjugated-search", wit(js, "object", p.desc, "delta", delta, "iters", iters, "squeeze", fmt.Sprintf("%+v", *sq)),
+				"differs from MarchingCubesConj(solid, delta, iters, squeeze.Transform(solid)): %s", why)
+		}
+	}
 	if js.has("squeeze") || js.has("pinch") || js.has("smart") {
 		// Mapping the vertices of a coarse mesh through a map that is only piecewise linear along an
 		// axis re-straightens the faces: a thin sliver can change the sign of its volume although the
